@@ -12,7 +12,7 @@ import (
 )
 
 const Sig = "(s0, s1 string, b0, b1 bool, xs []string, c0 templ.Component, at templ.Attributes)"
-const Args = "(s0, s1, b0, b1, xs, c0, at)"
+const CallArgs = "(s0, s1, b0, b1, xs, c0, at)"
 
 // Helpers is the Go source placed next to generated probe templates.
 const Helpers = `package main
@@ -26,6 +26,8 @@ import (
 )
 
 var errBoom = errors.New("boom")
+
+var onceA, onceB = templ.NewOnceHandle(), templ.NewOnceHandle()
 
 func errStr(s string) (string, error) {
 	if s == "ERR" {
@@ -68,6 +70,8 @@ type Opts struct {
 	Layout    bool // randomise single-line / multi-line layout and padding (else canonical multi-line)
 	NonASCII  bool
 	Hand      bool // calls of hand-written components with blocks (wrap/ignore/once/flush/raw)
+	Prefix    string // prefix of template names (several files in one package)
+	OnceFlush bool   // also call once handles and templ.Flush() with blocks (C13)
 }
 
 func Default() Opts {
@@ -251,6 +255,13 @@ func (g *G) node(depth int) *node {
 		g.inFor++
 		n := &node{kind: "for", children: g.nodes(depth - 1)}
 		g.inFor--
+		// Go rejects an unused loop variable: make sure the body mentions x
+		use := &node{kind: "expr", text: "x"}
+		if g.r.Intn(4) == 0 {
+			use = &node{kind: "gocode", text: "_ = x"}
+		}
+		at := g.r.Intn(len(n.children) + 1)
+		n.children = append(n.children[:at:at], append([]*node{use}, n.children[at:]...)...)
 		return n
 	case k < 78 && !leaf:
 		n := &node{kind: "switch", text: "s0"}
@@ -278,18 +289,22 @@ func (g *G) node(depth int) *node {
 				if leaf {
 					return &node{kind: "call", text: rng.Pick(g.r, []string{"wrap()", "ignore()", `templ.Raw("<r>")`})}
 				}
-				return &node{kind: "callblock", text: rng.Pick(g.r, []string{"wrap()", "ignore()"}), children: g.nodes(depth - 1)}
+				hand := []string{"wrap()", "ignore()"}
+				if g.o.OnceFlush {
+					hand = append(hand, "onceA.Once()", "onceB.Once()", "templ.Flush()", `templ.Raw("<r>")`)
+				}
+				return &node{kind: "callblock", text: rng.Pick(g.r, hand), children: g.nodes(depth - 1)}
 			}
 			fallthrough
 		default:
-			callee := "Card"
+			callee := g.o.Prefix + "Card"
 			if g.tIndex+1 < g.nT && g.r.Bool() {
-				callee = fmt.Sprintf("T%d", g.tIndex+1+g.r.Intn(g.nT-g.tIndex-1))
+				callee = fmt.Sprintf("%sT%d", g.o.Prefix, g.tIndex+1+g.r.Intn(g.nT-g.tIndex-1))
 			}
 			if leaf || g.r.Bool() {
-				return &node{kind: "call", text: callee + Args}
+				return &node{kind: "call", text: callee + CallArgs}
 			}
-			return &node{kind: "callblock", text: callee + Args, children: g.nodes(depth - 1)}
+			return &node{kind: "callblock", text: callee + CallArgs, children: g.nodes(depth - 1)}
 		}
 	case k < 89:
 		return &node{kind: "gocode", text: rng.Pick(g.r, []string{"k := len(xs)\n_ = k", "_ = s0", "var q = 1\n_ = q"})}
@@ -538,14 +553,14 @@ func File(r *rng.R, o Opts) string {
 			}
 		}
 		p := &printer{r: r.Fork(), layout: o.Layout}
-		fmt.Fprintf(&p.sb, "templ T%d%s {", i, Sig)
+		fmt.Fprintf(&p.sb, "templ %sT%d%s {", o.Prefix, i, Sig)
 		p.block(ns, 0)
 		p.sb.WriteString("}\n\n")
 		sb.WriteString(p.sb.String())
 	}
-	sb.WriteString("templ Card" + Sig + " {\n\t<section>{ children... }</section>\n}\n")
+	sb.WriteString("templ " + o.Prefix + "Card" + Sig + " {\n\t<section>{ children... }</section>\n}\n")
 	if r.Intn(4) == 0 {
-		sb.WriteString("\nfunc helperAfter() string { return \"x\" }\n")
+		sb.WriteString("\nfunc " + o.Prefix + "helperAfter() string { return \"x\" }\n")
 	}
 	return sb.String()
 }
